@@ -156,8 +156,13 @@ def _one(rng, fam, mon, sigs, hist):
         times = (np.cumsum(rng.uniform(0.1, 3.0, nfr)) + rng.uniform(-5, 5)) * 10 ** rng.uniform(-2, 2)
     with env.Capture() as cap:
         s = dyn.build(rng, ats, times, k=int(rng.integers(0, 4)), relabel=True)
+        frames_in = s.frames
+        if rng.random() < 0.3:
+            order_ = [int(x) for x in rng.permutation(nfr)]
+            frames_in = {t_: s.frames[t_] for t_ in order_}      # dictionary filled in another order than its keys
+            hist["frames-dict-out-of-order"] = hist.get("frames-dict-out-of-order", 0) + 1
         try:
-            solver = fs.ForSys(s.frames, cm=cm)
+            solver = fs.ForSys(frames_in, cm=cm)
         except Exception as exc:
             mon.fail("tracking-raises", "series can be tracked", exc=repr(exc)[:200])
             return
